@@ -158,6 +158,73 @@ pub fn run(rep: &mut Report) {
         }
     }
     rep.count_n("traces_validated", reqs.len() as u64);
+    capacity_cases(rep, &mut rng);
+}
+
+/// Capacity of the work queue: one worker, eight inputs that take long to parse. The producer
+/// runs ahead until the queue (capacity 2N) is full; the number of items announced as sent but not
+/// yet logged as received can then reach 2N + N and never more. A larger (or unbounded) channel
+/// lets it grow to the number of inputs.
+fn capacity_cases(rep: &mut Report, rng: &mut Rng) {
+    let n = rep.budget(3, 4);
+    let mut reqs = vec![];
+    let mut ctx = vec![];
+    for c in 0..n {
+        let dir = rep.workdir.join(format!("capacity{}", c));
+        let _ = std::fs::remove_dir_all(&dir);
+        std::fs::create_dir_all(&dir).unwrap();
+        let threads = if c % 3 == 2 { 2 } else { 1 };
+        let k = 8 + 4 * (threads - 1);
+        let mut args = vec![];
+        for i in 0..k {
+            let mut s = String::new();
+            for f in 0..6 {
+                s.push_str(&format!("SF:big{}_{}.c\n", i, f));
+                for l in 1..20000 {
+                    s.push_str(&format!("DA:{},{}\n", l, l % 7));
+                }
+                s.push_str("end_of_record\n");
+            }
+            let name = format!("big{}.info", i);
+            std::fs::write(dir.join(&name), s).unwrap();
+            args.push(name);
+        }
+        let cfg = RunCfg { dir: &dir, args: args.clone(), threads, perturb: Some(rng.next() % 100000), fault: None,
+            limit: Duration::from_secs(120), extra: vec!["-t".into(), "lcov".into(), "--no-demangle".into()] };
+        let out = run_grcov(&cfg);
+        let case = json!({"op": "capacity", "threads": threads, "inputs": k});
+        let backlog = max_backlog(&out);
+        rep.case(&format!("capacity {} {} {}", c, threads, k), backlog >= 2 * threads);
+        rep.count(&format!("capacity.threads={}.max_backlog={}", threads, backlog));
+        if out.exit != Some(0) {
+            rep.fail("oracle", None, format!("grcov exited with {:?} on large well-formed inputs", out.exit), case);
+            continue;
+        }
+        if backlog > 2 * threads + threads {
+            rep.fail("oracle", None,
+                format!("{} items were announced as sent while not yet received, with --threads {}: the work queue holds more than 2 x threads items", backlog, threads), case.clone());
+        }
+        if backlog < 2 * threads {
+            rep.notes.push(format!("capacity case {}: the queue was never full (backlog {})", c, backlog));
+        }
+        match log_to_request(&out, threads, false, k, &[]) {
+            Ok(req) => {
+                reqs.push(req);
+                ctx.push(case);
+            }
+            Err(e) => rep.fail("oracle", None, format!("event log is inconsistent: {}", e), case),
+        }
+        let _ = std::fs::remove_dir_all(&dir);
+    }
+    let answers = run_model(&reqs, &rep.workdir, "capacity");
+    for (i, a) in answers.iter().enumerate() {
+        if !a.starts_with("accepted exit=0 ") {
+            rep.disagreements_checked += 1;
+            rep.fail("disagreement", None, format!("the event log of a run that fills the queue is not a run of the Pipeline model with capacity 2N ({})", a),
+                json!({"context": ctx[i], "request": reqs[i], "model": a}));
+        }
+    }
+    rep.count_n("traces_validated", reqs.len() as u64);
 }
 
 pub fn replay(rep: &mut Report, case: &serde_json::Value) {
